@@ -123,13 +123,14 @@ type chain struct {
 }
 
 type scenario struct {
-	Kind   string  `json:"kind"` // chain | join | deser | convio | conv
-	Chain  *chain  `json:"chain,omitempty"`
-	Chains []chain `json:"chains,omitempty"`
-	Text   []byte  `json:"text,omitempty"`
-	Conv   string  `json:"conv,omitempty"` // fs | proc | io
-	Cond   string  `json:"cond,omitempty"` // name of the backend condition
-	Spec   *spec   `json:"spec,omitempty"` // convio
+	Kind    string           `json:"kind"` // chain | join | deser | convio | conv
+	Chain   *chain           `json:"chain,omitempty"`
+	Chains  []chain          `json:"chains,omitempty"`
+	Text    []byte           `json:"text,omitempty"`
+	Conv    string           `json:"conv,omitempty"` // fs | proc | io
+	Cond    string           `json:"cond,omitempty"` // name of the backend condition
+	Spec    *spec            `json:"spec,omitempty"` // convio
+	Backend *backendScenario `json:"backend,omitempty"`
 }
 
 var foreignVals = []error{io.EOF, io.ErrUnexpectedEOF}
@@ -562,7 +563,7 @@ func runChain(r *h.Run, sc scenario, emit bool) {
 	}
 	if emit && modelSafe(c.strs()...) {
 		b, ops := c.coq()
-		r.Case(fmt.Sprintf("(CChain %s %s %s %s %s %s)", b, ops, h.Str(text), coqBools(isVector(e)), h.Bytes(ser), d.coq()), sc)
+		oldCase(r, fmt.Sprintf("(CChain %s %s %s %s %s %s)", b, ops, h.Str(text), coqBools(isVector(e)), h.Bytes(ser), d.coq()), sc)
 	}
 	r.Sample(map[string]any{"text": text, "given_kind": want.kind, "kinds": got, "serialised": string(ser), "deserialised": d.text, "reason": d.reason})
 }
@@ -627,7 +628,7 @@ func runJoin(r *h.Run, sc scenario, emit bool) {
 			b, ops := sc.Chains[i].coq()
 			cs[i] = "(" + b + ", " + ops + ")"
 		}
-		r.Case(fmt.Sprintf("(CJoin %s %s %s)", h.List(cs), h.Bytes(ser), d.coq()), sc)
+		oldCase(r, fmt.Sprintf("(CJoin %s %s %s)", h.List(cs), h.Bytes(ser), d.coq()), sc)
 	}
 }
 
@@ -638,7 +639,7 @@ func runDeser(r *h.Run, sc scenario, emit bool) {
 	r.Count("raw-text")
 	d := deser(sc.Text)
 	if emit && modelSafe(sc.Text) {
-		r.Case(fmt.Sprintf("(CDeser %s %s)", h.Bytes(sc.Text), d.coq()), sc)
+		oldCase(r, fmt.Sprintf("(CDeser %s %s)", h.Bytes(sc.Text), d.coq()), sc)
 	}
 }
 
@@ -815,7 +816,7 @@ func runConvIO(r *h.Run, sc scenario, emit bool) {
 		return
 	}
 	if emit && modelSafe(sc.Spec.strs()...) {
-		r.Case(fmt.Sprintf("(CConvIO %s %s %s)", sc.Spec.coqErr(), h.Str(out.Error()), coqBools(isVector(out))), sc)
+		oldCase(r, fmt.Sprintf("(CConvIO %s %s %s)", sc.Spec.coqErr(), h.Str(out.Error()), coqBools(isVector(out))), sc)
 	}
 }
 
@@ -832,6 +833,8 @@ func run(r *h.Run, sc scenario, emit bool) {
 			runConv(r, sc)
 		case "convio":
 			runConvIO(r, sc, emit)
+		case "backend":
+			runBackend(r, *sc.Backend, emit)
 		}
 	})
 }
@@ -936,7 +939,9 @@ func sent(k int) *spec { return &spec{K: "sent", Kind: k} }
 
 func main() {
 	r := h.Init("C11")
-	r.Imports = []string{"GU.C11.Model"}
+	r.Imports = []string{"GU.C11.Model", "GU.C11.Conv"}
+	r.CaseType = "case2"
+	r.CheckFn = "check_case2"
 	r.ShardSize = 150
 	r.Rule("every kind of the generated table x message corpus (empty, colons, blanks, other kinds' names, unicode, invalid UTF-8, percent signs; multi-line for the kind part) x every constructor; " +
 		"seeded chains of 0..4 constructor applications mixing New/Newf/Errorf/WrapError(f)/WrapIfNotCommonError(f) in target and in cause position with nil / sentinel / context / foreign-wrapped context / opaque arguments; joins of 1..4 such errors; raw and malformed text to DeserialiseError; " +
@@ -952,6 +957,9 @@ func main() {
 
 	inv := kindIndex(ce.ErrInvalid)
 	nf := kindIndex(ce.ErrNotFound)
+
+	// --- backend error values through the converters (known finding first)
+	safely(r, scenario{Kind: "backend"}, func() { backendSweep(r) })
 
 	// --- corpus first: the confirmed defect D18 and its variants (reason duplicated when the target is itself reasoned)
 	run(r, scenario{Kind: "chain", Chain: &chain{Base: sent(inv), Ops: []op{{Op: "New", M: []byte("foo")}, {Op: "New", M: []byte("bar")}}}}, true)
